@@ -34,7 +34,9 @@ ASSUMPTIONS = [
 
 TY_BP = {'int': 'integer', 'str': 'string', 'bool': 'boolean', 'real': 'real', None: 'void'}
 ENUM = ['Red', 'Green', 'Blue', 'None', 'Alpha']     # 'None' is renamed None_ by the library (Python keyword)
-CONSTS = [('MAX_N', 'integer', '7'), ('GREETING', 'string', 'hello'), ('ENABLED', 'boolean', 'true'), ('RATIO', 'real', '2.5')]
+CONSTS = [('MAX_N', 'integer', '7'), ('GREETING', 'string', 'hello'), ('ENABLED', 'boolean', 'true'), ('RATIO', 'real', '2.5'),
+          # the zero of every type is a value like any other
+          ('ZERO', 'integer', '0'), ('NOTHING', 'string', ''), ('DISABLED', 'boolean', 'false'), ('NIL', 'real', '0.0')]
 
 
 def base_diagram():
@@ -143,7 +145,7 @@ class CallHooks(object):
 OAL_TY = {'integer': 'int', 'string': 'str', 'boolean': 'bool', 'real': 'real'}
 
 
-def gen_graph(ints, for_prebuild=False):
+def gen_graph(ints, for_prebuild=False, logical_calls=False):
     t = Tape(ints)
     order = []
     specs = [('function', 'f0', None), ('bridge', 'b0', 'MYEE'), ('instop', 'iop', 'A'), ('function', 'f1', None),
@@ -182,7 +184,13 @@ def gen_graph(ints, for_prebuild=False):
         g.consts = [('Limits', n, OAL_TY[ty]) for n, ty, _v in CONSTS]
         g.const_style = 'namespaced' if for_prebuild else 'plain'
         g.arrays = for_prebuild
+        g.refattrs = for_prebuild
+        g.logical_calls = logical_calls
         env = Env()
+        if g.self_cls:
+            # the instance the operation / derived attribute runs on takes part like any other instance variable
+            # (relate self to ..., select ... related by self->..., unrelate self from ...)
+            env.set('self', {'ty': 'inst', 'cls': g.self_cls, 'nonempty': True, 'ro': True})
         recursive = kind == 'function' and c.ret == 'int' and t.pick(3) == 0
         stmts = []
         if recursive:
@@ -213,6 +221,17 @@ def gen_graph(ints, for_prebuild=False):
                 stmts.append(N('AssignmentNode', variable_access=g.var(bv), expression=N(
                     'BinaryOperationNode', left=N('ParamAccessNode', variable_name=pn, _kw='param'),
                     operator=t.choice(['and', 'or']), right=g.expr(env, 'bool', 1))))
+                env.set(bv, {'ty': 'bool'})
+        if logical_calls and order and kind != 'derived' and t.pick(4) != 0:
+            # keyword operators over an invocation at the top of the body (always executed)
+            cexpr = hooks.expr(g, env, 'bool', 1)
+            if cexpr is not None:
+                bv = env.fresh('b')
+                form = t.pick(3)
+                e = N('UnaryOperationNode', operator='not', operand=cexpr) if form == 0 else (
+                    N('BinaryOperationNode', left=cexpr, operator=t.choice(['and', 'or']), right=g.expr(env, 'bool', 1)) if form == 1 else
+                    N('BinaryOperationNode', left=g.expr(env, 'bool', 1), operator=t.choice(['and', 'or']), right=cexpr))
+                stmts.append(N('AssignmentNode', variable_access=g.var(bv), expression=e))
                 env.set(bv, {'ty': 'bool'})
         stmts += g.stmts(env, 2, False, top=True, minimum=1)
         if kind == 'derived' and t.flag():
@@ -265,8 +284,8 @@ def gen_graph(ints, for_prebuild=False):
     return order, features, t0
 
 
-def text_of(body):
-    p = Printer(choose=lambda key, options: options[0])
+def text_of(body, kwcase=None):
+    p = Printer(choose=lambda key, options: options[0], case=oalsyn_caser(kwcase) if kwcase else None)
     p.block(body['block'])
     return render(p.toks, [' '])[0]
 
@@ -275,7 +294,12 @@ UDT_OF = {'bool': 'Flag', 'int': 'Count'}
 UDT_BASE = {'Flag': 'boolean', 'Count': 'integer'}
 
 
-def diagram_with(callables, enum_order):
+def oalsyn_caser(kwcase):
+    from .oalsyn import caser
+    return caser(kwcase)
+
+
+def diagram_with(callables, enum_order, kwcase=None):
     D, ix = base_diagram()
     D['types'].append({'name': 'Color', 'kind': 'enum', 'enumerators': list(ENUM), 'parent': ['pkg', 2]})
     D['constants'].append({'name': 'Limits', 'parent': ['pkg', 2],
@@ -287,7 +311,7 @@ def diagram_with(callables, enum_order):
         udt = getattr(c, 'udt', ())
         params = [[pn, UDT_OF[pt] if pn in udt else TY_BP[pt]] for pn, pt in c.params]
         ret = UDT_OF[c.ret] if '' in udt else TY_BP[c.ret]
-        c.text = text_of(c.body)
+        c.text = text_of(c.body, kwcase)
         if c.kind == 'function':
             D['functions'].append({'name': c.name, 'ret': ret, 'params': params, 'body': c.text, 'parent': ['pkg', 2]})
         elif c.kind == 'bridge':
@@ -371,15 +395,18 @@ class CallModel(object):
         return NotImplemented
 
 
-def cases():
+def cases(kwcase=None):
+    # kwcase: spelling styles of the keywords in the bodies (lower case unless a strategy is given; C08 gives one)
     return st.fixed_dictionaries({'tape': oalsyn.tapes(900, 120), 'pop': c04_interpret.populations(),
                                   'order': st.lists(st.integers(0, 10 ** 6), min_size=1, max_size=8),
-                                  'args': st.lists(st.integers(0, 9), min_size=1, max_size=12)})
+                                  'args': st.lists(st.integers(0, 9), min_size=1, max_size=12),
+                                  'kwcase': kwcase if kwcase is not None else st.just([0]),
+                                  'logical_calls': st.just(kwcase is not None)})
 
 
 def build(case):
-    callables, features, t = gen_graph(case['tape'])
-    D = diagram_with(callables, None)
+    callables, features, t = gen_graph(case['tape'], logical_calls=bool(case.get('logical_calls')))
+    D = diagram_with(callables, None, case.get('kwcase'))
     rows, _ix = bpmodel.to_rows(D)
     rows = c14_component.shuffle(rows, case['order'])
     text = bpmodel.render(rows)
